@@ -104,3 +104,29 @@ contract(
     ensures=["not (len(failures_per_format_lookup.keys()) > 0 and len(failures_per_format_lookup.keys()) == len(hash_format_list))"],
     props=["C09"],
 )
+
+# test_for_missing_files, second half (from the emptiness test on; the filter above it - a nested closure over pathspec - stays
+# assumed): nothing is reported iff no unignored path is left, otherwise the completeness failure is returned and EVERY
+# remaining path is named in the output, one line each after the headline (C03: "each affected path is named")
+contract(
+    "ascmhl.commands.test_for_missing_files",
+    region="report",
+    params={"not_found_paths": "list[str]", "root_path": "str", "ignore_spec": "MHLIgnoreSpec"},
+    start_at="if len(not_found_paths) == 0:",
+    returns="opaque:exc?",
+    logs=True,
+    ensures=[
+        "(result is None) == (len(not_found_paths) == 0)",
+        "result is None or result == exc_code('CompletenessCheckFailedException')",
+        "all(out[j] == old(out)[j] for j in range(len(old(out))))",
+        "len(not_found_paths) != 0 or len(out) == len(old(out))",
+        "len(not_found_paths) == 0 or len(out) == len(old(out)) + 1 + len(not_found_paths)",
+        "len(not_found_paths) == 0 or all(out[len(old(out)) + 1 + j] == '  ' + p_relpath(not_found_paths[j], root_path) for j in range(len(not_found_paths)))",
+    ],
+    loops={0: Loop(invariant=[
+        "len(out) == len(old(out)) + 1 + _i",
+        "all(out[j] == old(out)[j] for j in range(len(old(out))))",
+        "all(out[len(old(out)) + 1 + j] == '  ' + p_relpath(not_found_paths[j], root_path) for j in range(_i))",
+    ])},
+    props=["C03"],
+)
